@@ -1,0 +1,13 @@
+// Verification contracts (comment-only, compiled only with the "verif" build tag; read by /verif/govc).
+
+//go:build verif
+// +build verif
+
+package params
+
+// Property C09 (memory discipline of journalled validator records): YOUToStake returns a NEW big integer and writes nothing
+// (callers store the result into journal-relevant records or compare it; it must not be one of its inputs).
+//@ func YOUToStake props C09
+//@ panics ignored
+//@ modifies nothing
+//@ ensures [new-value] fresh(result)
